@@ -54,15 +54,13 @@ impl BufRead for BodyReader {
 }
 
 fn is_chunked(headers: &HeaderMap) -> bool {
-    headers
-        .get_all(TRANSFER_ENCODING)
-        .into_iter()
-        .filter_map(|val| val.to_str().ok())
-        .any(|val| {
-            val.split(',')
-                .map(|s| s.trim())
-                .any(|s| s.eq_ignore_ascii_case("chunked"))
-        })
+    // The value is looked at as bytes: a field line that carries obs-text somewhere (a quoted
+    // parameter of another coding) still names its codings.
+    headers.get_all(TRANSFER_ENCODING).into_iter().any(|val| {
+        val.as_bytes()
+            .split(|&b| b == b',')
+            .any(|s| s.trim_ascii().eq_ignore_ascii_case(b"chunked"))
+    })
 }
 
 fn parse_content_length(val: &HeaderValue) -> Result<u64> {
